@@ -53,7 +53,7 @@ func checkC11(c *Check) {
 // empty key exactly for the empty sender, the domain part of the sender otherwise; the give-back is not skipped
 // for the empty sender.
 func c11KeyAgreement(c *Check) {
-	c.Rule("R3b", "SMTP endpoint: the sender-domain key of TakeMsg / ReleaseMsg is \"\" exactly in the world 'sender is empty' and the domain of address.Split(sender) otherwise – at the take site and at the release site alike; with an empty sender the release is still performed", 2)
+	c.Rule("R3b", "SMTP endpoint: the sender-domain key of TakeMsg / ReleaseMsg is \"\" exactly in the world 'sender is empty' and the domain of address.Split(sender) otherwise – at the take site and at the release site alike; with an empty sender the release is still performed; the address key is the peer's IP for a TCP peer and the stand-in only otherwise", 4)
 	type site struct {
 		fn     string
 		isCall CallPred
@@ -162,6 +162,31 @@ func c11KeyAgreement(c *Check) {
 			}
 		}
 		c.Hold("R3b", st.fn+":key", r.Pos(cp), msg == "", msg)
+
+		msg = c11AddrKey(r, cp, call.Args[st.argIdx-1])
+		c.Hold("R3b", st.fn+":address-key", r.Pos(cp), msg == "", msg)
+	}
+	// the remote target takes and releases a message permit under the same kind of key
+	for _, st := range []struct {
+		recv, fn string
+		pred     CallPred
+		idx      int
+	}{
+		{"Target", "Start", calling("~/internal/limits.Group.TakeMsg"), 1},
+		{"remoteDelivery", "Close", calling("~/internal/limits.Group.ReleaseMsg"), 0},
+	} {
+		r := c.need("R3b", remoteRel, st.recv, st.fn)
+		if r == nil {
+			continue
+		}
+		calls := r.Calls(st.pred)
+		if len(calls) != 1 {
+			c.Fail("R3b", "remote."+st.fn+":address-key", r.FI.Decl.Pos(), "undecided: expected one limiter call")
+			continue
+		}
+		call := r.CallAt(calls[0], st.pred)
+		msg := c11AddrKey(r, calls[0], call.Args[st.idx])
+		c.Hold("R3b", "remote."+st.fn+":address-key", r.Pos(calls[0]), msg == "", msg)
 	}
 }
 
@@ -1084,4 +1109,75 @@ func c11StalenessIn(c *Check, rule string, rels []string) {
 			})
 		})
 	}
+}
+
+
+// c11AddrKey: the address argument of a TakeMsg / ReleaseMsg call is the peer's IP exactly when the connection has a
+// TCP address (the type assertion on ConnState.RemoteAddr succeeded, connection and address present), and the
+// loopback stand-in otherwise. Accepts `local.IP` (local defined by the assertion, overwritten by the stand-in)
+// and `addr` (initialised with the stand-in, overwritten by `tcp.IP`).
+func c11AddrKey(r *RuleCtx, cp Pt, arg ast.Expr) string {
+	info := r.Info
+	// the assertion `v, ok := <…>.RemoteAddr.(*net.TCPAddr)`
+	var tcpVar, okVar types.Object
+	ast.Inspect(r.FI.Decl.Body, func(n ast.Node) bool {
+		if as, isAs := n.(*ast.AssignStmt); isAs && len(as.Lhs) == 2 && len(as.Rhs) == 1 {
+			if ta, isTA := ast.Unparen(as.Rhs[0]).(*ast.TypeAssertExpr); isTA && isField(info, ta.X, "ConnState", "RemoteAddr") {
+				tcpVar, okVar = objOf(info, as.Lhs[0]), objOf(info, as.Lhs[1])
+			}
+		}
+		return true
+	})
+	if tcpVar == nil || okVar == nil {
+		return "the address key is not taken from the connection's remote address"
+	}
+	// worlds: ok / presence of the connection and of its address
+	world := func(okV, present bool) func(b *cfgBlock, i int) bool {
+		return r.F.World(func(atom ast.Expr) (bool, bool) {
+			if objOf(info, atom) == okVar {
+				return okV, true
+			}
+			if be, isBin := ast.Unparen(atom).(*ast.BinaryExpr); isBin && (be.Op == token.EQL || be.Op == token.NEQ) && isNilIdent(info, be.Y) {
+				if isField(info, be.X, "ConnState", "RemoteAddr") || isField(info, be.X, "MsgMetadata", "Conn") {
+					return (be.Op == token.NEQ) == present, true
+				}
+			}
+			return false, false
+		})
+	}
+	isPeerIP := func(e ast.Expr) bool {
+		sel, ok := ast.Unparen(e).(*ast.SelectorExpr)
+		return ok && sel.Sel.Name == "IP" && objOf(info, sel.X) == tcpVar
+	}
+	arg = ast.Unparen(arg)
+	if sel, ok := arg.(*ast.SelectorExpr); ok && sel.Sel.Name == "IP" {
+		base := objOf(info, sel.X)
+		if base != tcpVar {
+			return "the address key is not the asserted TCP address"
+		}
+		dT, okT := r.ReachingDefs(base, cp, world(true, true))
+		dF, okF := r.ReachingDefs(base, cp, world(false, true))
+		switch {
+		case okT || len(dT) != 0:
+			return "for a TCP peer the address key is not the peer's address (another definition reaches the limiter call): the per-IP limit is applied to, or released for, somebody else"
+		case !okF || len(dF) != 1:
+			return "for a peer without a TCP address the address key is not the stand-in (a nil address is dereferenced)"
+		}
+		return ""
+	}
+	o := objOf(info, arg)
+	if o == nil {
+		return "undecided: the address argument is neither <local>.IP nor a local variable"
+	}
+	dT, okT := r.ReachingDefs(o, cp, world(true, true))
+	if !okT || len(dT) != 1 || !isPeerIP(dT[0]) {
+		return "for a TCP peer the address key is not the peer's address: the per-IP limit is applied to, or released for, somebody else"
+	}
+	for _, w := range []func(b *cfgBlock, i int) bool{world(false, true), world(true, false)} {
+		dF, okF := r.ReachingDefs(o, cp, w)
+		if !okF || len(dF) != 1 || isPeerIP(dF[0]) {
+			return "for a peer without a TCP address the address key is not the stand-in (the value of a failed assertion / absent connection is used)"
+		}
+	}
+	return ""
 }
